@@ -8,125 +8,88 @@ real code (None = all of them: complete edge cover)."""
 ALL_APIS = {"lock", "try_lock", "read", "try_read", "scoped_lock", "scoped_try_lock", "scoped_read", "scoped_try_read"}
 ALL_KINDS = {"single", "owned", "boxed", "ref", "retry"}
 
+S1, S2, S3, U4 = 1, 2, 3, 4   # arena slots: RwLock, RwLock, Mutex, owned unit over RwLocks 6,5
+
+HOLDERS_2 = {("single", (1,), "lock"), ("single", (1,), "read"), ("owned", (4,), "lock"),
+             ("boxed", (2, 1), "lock"), ("boxed", (4, 1), "lock"), ("retry", (1, 4), "read"), ("retry", (2, 1), "lock")}
+HOLDERS_3 = {("single", (1,), "lock"), ("single", (2,), "lock"), ("single", (2,), "read"), ("owned", (4,), "lock"),
+             ("owned", (4,), "read"), ("boxed", (2, 1), "lock"), ("retry", (4, 2), "lock")}
+
 CORPORA = {
-    # two threads, one call each; thread 1 ranges over everything, thread 2 over blocking holders
+    # two threads, one call each; thread 1 ranges over every kind x arrangement (0..2 members) x API x key style
     "conc2": dict(
         module="MC.tla",
-        quick=dict(consts=dict(Kinds=ALL_KINDS, ApisA=ALL_APIS, ApisB={"lock", "read"},
-                               UnivA={1, 2, 4}, UnivB={1, 4}, MaxLenA=2, MaxLenB=2,
+        quick=dict(consts=dict(Kinds=ALL_KINDS, ApisA=ALL_APIS, CallsB=HOLDERS_2, UnivA={1, 2, 4}, MinLenA=0, MaxLenA=2,
                                Policies={"RP", "WP"}, NT=2, Keys={"owned", "lent"}),
-                   parts=14, max_runs=24000),
-        thorough=dict(consts=dict(Kinds=ALL_KINDS, ApisA=ALL_APIS, ApisB=ALL_APIS,
-                                  UnivA={1, 2, 4}, UnivB={1, 2, 4}, MaxLenA=3, MaxLenB=2,
+                   parts=14, max_runs=150000),
+        thorough=dict(consts=dict(Kinds=ALL_KINDS, ApisA=ALL_APIS,
+                                  CallsB=HOLDERS_2 | {("ref", (4, 2), "read"), ("boxed", (2, 4), "try_lock"),
+                                                      ("retry", (4, 1), "scoped_lock"), ("single", (3,), "lock")},
+                                  UnivA={1, 2, 3, 4}, MinLenA=0, MaxLenA=2,
                                   Policies={"RP", "WP"}, NT=2, Keys={"owned", "lent"}),
-                      parts=16, max_runs=400000),
+                      parts=16, max_runs=1500000),
+    ),
+    # three members in every arrangement: the index arithmetic of rollbacks and of the retry loop
+    "size3": dict(
+        module="MC.tla",
+        quick=dict(consts=dict(Kinds={"boxed", "ref", "retry"}, ApisA=ALL_APIS, CallsB=HOLDERS_3, UnivA={1, 2, 4},
+                               MinLenA=3, MaxLenA=3, Policies={"RP", "WP"}, NT=2, Keys={"owned"}),
+                   parts=14, max_runs=150000),
+        thorough=dict(consts=dict(Kinds={"boxed", "ref", "retry"}, ApisA=ALL_APIS,
+                                  CallsB=HOLDERS_3 | {("single", (3,), "lock"), ("boxed", (3, 1), "lock")},
+                                  UnivA={1, 2, 3, 4}, MinLenA=3, MaxLenA=4, Policies={"RP", "WP"}, NT=2,
+                                  Keys={"owned", "lent"}),
+                      parts=16, max_runs=1500000),
     ),
     # three threads: rings and mixed kinds over three top-level locks
     "conc3": dict(
         module="MC.tla",
-        quick=dict(consts=dict(Kinds={"boxed", "retry", "single"}, ApisA={"lock", "try_lock", "read"},
-                               ApisB={"lock"}, UnivA={1, 2, 3}, UnivB={1, 2, 3}, MaxLenA=2, MaxLenB=2,
-                               Policies={"WP"}, NT=3, Keys={"owned"}),
-                   parts=14, max_runs=12000),
+        quick=dict(consts=dict(Kinds={"boxed", "retry", "ref"}, ApisA={"lock", "read"},
+                               CallsB={("boxed", (2, 1), "lock"), ("retry", (4, 2), "lock"), ("single", (1,), "lock"),
+                                       ("owned", (4,), "read")},
+                               UnivA={1, 2, 4}, MinLenA=2, MaxLenA=2, Policies={"WP"}, NT=3, Keys={"owned"}),
+                   parts=14, max_runs=150000),
         thorough=dict(consts=dict(Kinds={"boxed", "retry", "single", "ref", "owned"},
                                   ApisA={"lock", "try_lock", "read", "scoped_lock"},
-                                  ApisB={"lock", "read"}, UnivA={1, 2, 3, 4}, UnivB={1, 2, 3}, MaxLenA=2, MaxLenB=2,
-                                  Policies={"RP", "WP"}, NT=3, Keys={"owned"}),
-                      parts=16, max_runs=200000),
+                                  CallsB={("boxed", (2, 1), "lock"), ("retry", (4, 2), "lock"), ("single", (1,), "lock"),
+                                          ("owned", (4,), "read"), ("ref", (1, 4), "read"), ("retry", (1, 2), "read")},
+                                  UnivA={1, 2, 4}, MinLenA=1, MaxLenA=3, Policies={"RP", "WP"}, NT=3, Keys={"owned"}),
+                      parts=16, max_runs=1500000),
     ),
 }
 
-SEQ_COLLS_MAIN = {1, 2, 3, 4, 6}
+FLT_PROBES_TRY = {1, 17, 2, 6}
+FLT_PROBES_LOCK = {1, 17, 2}
 CORPORA.update({
-    # single-thread histories over the key-affecting vocabulary (+ an optional holder thread)
-    "seqkey": dict(
+    # one call under a one-shot raw-lock fault at every operation index, then probes of every lock
+    "fault": dict(
         module="MC.tla",
-        quick=dict(consts=dict(Family="seq", SeqColls={1}, SeqApis={"lock", "try_lock", "scoped_lock", "scoped_try_lock"},
-                               SeqRels={"drop", "unlock", "forget"}, SeqKeys={"owned", "lent"}, SeqBodies={"none", "panic"},
-                               SeqKeyOps={"probe", "getkey", "dropkey", "forgetkey"}, SeqMaxLen=3,
-                               SeqHolders={("none", 0), ("lock", 3)}, Policies={"RP"}),
-                   parts=14, max_runs=30000),
-        thorough=dict(consts=dict(Family="seq", SeqColls={1, 4, 8}, SeqApis={"lock", "try_lock", "scoped_lock", "scoped_try_lock", "read"},
-                                  SeqRels={"drop", "unlock", "forget"}, SeqKeys={"owned", "lent"}, SeqBodies={"none", "panic"},
-                                  SeqKeyOps={"probe", "getkey", "dropkey", "forgetkey"}, SeqMaxLen=3,
-                                  SeqHolders={("none", 0), ("lock", 3)}, Policies={"RP"}),
-                      parts=16, max_runs=300000),
-    ),
-    # single-thread sequences over every API flavour x release flavour x key style, with a holder
-    "seqapi": dict(
-        module="MC.tla",
-        quick=dict(consts=dict(Family="seq", SeqColls={1, 2, 3, 4, 5, 6, 13, 14}, SeqApis=ALL_APIS,
-                               SeqRels={"drop", "unlock"}, SeqKeys={"owned", "lent"}, SeqBodies={"acc"},
-                               SeqKeyOps=set(), SeqMaxLen=2,
-                               SeqHolders={("none", 0), ("lock", 3), ("read", 3), ("lock", 6)}, Policies={"RP", "WP"}),
-                   parts=14, max_runs=24000),
-        thorough=dict(consts=dict(Family="seq", SeqColls={1, 2, 3, 4, 5, 6, 7, 9, 13, 14}, SeqApis=ALL_APIS,
-                                  SeqRels={"drop", "unlock", "forget"}, SeqKeys={"owned", "lent"}, SeqBodies={"acc", "none"},
-                                  SeqKeyOps={"probe"}, SeqMaxLen=2,
-                                  SeqHolders={("none", 0), ("lock", 3), ("read", 3), ("lock", 6), ("read", 4)},
-                                  Policies={"RP", "WP"}),
-                      parts=16, max_runs=300000),
-    ),
-    # panics in user code at every critical section, poisonable wrappers everywhere
-    "panic": dict(
-        module="MC.tla",
-        quick=dict(consts=dict(Family="seq", SeqColls={3, 7, 8, 9, 11, 12, 15, 16}, SeqApis=ALL_APIS,
-                               SeqRels={"drop"}, SeqKeys={"owned"}, SeqBodies={"acc", "panic"},
-                               SeqKeyOps=set(), SeqTopOps={("is_poisoned", 8), ("clear_poison", 8), ("is_poisoned", 7)},
-                               SeqMaxLen=2, SeqHolders={("none", 0)}, Policies={"RP"}),
-                   parts=14, max_runs=24000),
-        thorough=dict(consts=dict(Family="seq", SeqColls={1, 2, 3, 4, 5, 6, 7, 8, 9, 10, 11, 12, 15, 16}, SeqApis=ALL_APIS,
-                                  SeqRels={"drop", "unlock"}, SeqKeys={"owned", "lent"}, SeqBodies={"acc", "panic"},
-                                  SeqKeyOps={"probe"}, SeqTopOps={("is_poisoned", 8), ("clear_poison", 8), ("is_poisoned", 7),
-                                                                  ("clear_poison", 7), ("is_poisoned", 11), ("clear_poison", 11)},
-                                  SeqMaxLen=2, SeqHolders={("none", 0), ("lock", 3), ("read", 3)}, Policies={"RP", "WP"}),
-                      parts=16, max_runs=300000),
-    ),
-    # two threads, thread 1's critical section panics; thread 2 waits for the same locks
-    "concpanic": dict(
-        module="MC.tla",
-        quick=dict(consts=dict(Kinds=ALL_KINDS, ApisA=ALL_APIS, ApisB={"lock", "read"},
-                               UnivA={1, 2, 4}, UnivB={1, 4}, MaxLenA=2, MaxLenB=2,
-                               Policies={"RP"}, NT=2, Keys={"owned", "lent"}, ConcBodies={"panic"}),
-                   parts=14, max_runs=20000),
-        thorough=dict(consts=dict(Kinds=ALL_KINDS, ApisA=ALL_APIS, ApisB=ALL_APIS,
-                                  UnivA={1, 2, 4}, UnivB={1, 2, 4}, MaxLenA=3, MaxLenB=2,
-                                  Policies={"RP", "WP"}, NT=2, Keys={"owned", "lent"}, ConcBodies={"panic"}),
-                      parts=16, max_runs=300000),
-    ),
-    # non-acquiring operations ({:?}, is_poisoned, clear_poison) against every held pattern
-    "ops": dict(
-        module="MC.tla",
-        quick=dict(consts=dict(Family="seq", SeqColls={1, 2, 3, 4, 5, 6, 7}, SeqApis={"lock", "read", "scoped_lock", "scoped_read"},
-                               SeqRels={"drop"}, SeqKeys={"owned"}, SeqBodies={"dbg"}, SeqDbgColls={1, 2, 3, 4, 5, 6, 7, 9, 13},
-                               SeqKeyOps=set(), SeqTopOps={("debug", 1), ("debug", 2), ("debug", 3), ("debug", 4), ("debug", 5),
-                                                           ("debug", 6), ("debug", 7), ("debug", 9), ("debug", 13),
-                                                           ("is_poisoned", 7), ("clear_poison", 7)},
-                               SeqMaxLen=1, SeqHolders={("none", 0), ("lock", 3), ("read", 3), ("lock", 6), ("lock", 13), ("read", 4)},
-                               Policies={"RP", "WP"}),
-                   parts=14, max_runs=30000),
-        thorough=dict(consts=dict(Family="seq", SeqColls={1, 2, 3, 4, 5, 6, 7, 9, 13, 14}, SeqApis=ALL_APIS,
-                                  SeqRels={"drop"}, SeqKeys={"owned"}, SeqBodies={"dbg"}, SeqDbgColls={1, 2, 3, 4, 5, 6, 7, 9, 13, 14},
-                                  SeqKeyOps=set(), SeqTopOps={("debug", 1), ("debug", 2), ("debug", 3), ("debug", 4), ("debug", 5),
-                                                              ("debug", 6), ("debug", 7), ("debug", 9), ("debug", 13), ("debug", 14),
-                                                              ("is_poisoned", 7), ("clear_poison", 7)},
-                                  SeqMaxLen=2, SeqHolders={("none", 0), ("lock", 3), ("read", 3), ("lock", 6), ("lock", 13), ("read", 4)},
-                                  Policies={"RP", "WP"}),
-                      parts=16, max_runs=300000),
+        quick=dict(consts=dict(Family="fault", FltColls={1, 2, 3, 6, 18, 19, 21, 22, 23}, FltApis=ALL_APIS,
+                               FltKeys={"owned", "lent"}, FltRels={"drop", "unlock"},
+                               FltHolders={("none", 0), ("lock", 1), ("lock", 17), ("lock", 2)}, FltMaxAt=10,
+                               FltTryProbes=FLT_PROBES_TRY, FltLockProbes=FLT_PROBES_LOCK, Policies={"RP"}),
+                   parts=14, max_runs=60000),
+        thorough=dict(consts=dict(Family="fault", FltColls={1, 2, 3, 4, 5, 6, 7, 9, 10, 12, 14, 18, 19, 20, 21, 22, 23},
+                                  FltApis=ALL_APIS, FltKeys={"owned", "lent"}, FltRels={"drop", "unlock"},
+                                  FltHolders={("none", 0), ("lock", 1), ("lock", 17), ("lock", 2), ("read", 1), ("lock", 6)},
+                                  FltMaxAt=14, FltTryProbes=FLT_PROBES_TRY, FltLockProbes=FLT_PROBES_LOCK,
+                                  Policies={"RP"}),
+                      parts=16, max_runs=1500000),
     ),
 })
 
 PROPS = {
-    "C01": dict(corpora=["conc2", "conc3"], design="DESIGN.md §5 C01"),
-    "C02": dict(corpora=["conc2"], design="DESIGN.md §5 C02"),
-    "C03": dict(corpora=["conc2", "seqapi"], design="DESIGN.md §5 C03"),
-    "C04": dict(corpora=["conc2"], design="DESIGN.md §5 C04"),
-    "C05": dict(corpora=["conc2", "seqapi", "ops"], design="DESIGN.md §5 C05"),
-    "C08": dict(corpora=["conc2"], design="DESIGN.md §5 C08"),
-    "C09": dict(corpora=["conc2", "conc3"], design="DESIGN.md §5 C09"),
+    "C01": dict(corpora=["conc2", "size3", "conc3"], design="DESIGN.md §5 C01"),
+    "C02": dict(corpora=["conc2", "size3"], design="DESIGN.md §5 C02"),
+    "C03": dict(corpora=["conc2", "size3", "seqapi"], design="DESIGN.md §5 C03"),
+    "C04": dict(corpora=["conc2", "size3"], design="DESIGN.md §5 C04"),
+    "C05": dict(corpora=["conc2", "size3", "seqapi", "ops"], design="DESIGN.md §5 C05"),
+    "C08": dict(corpora=["conc2", "size3"], design="DESIGN.md §5 C08"),
+    "C09": dict(corpora=["conc2", "size3", "conc3"], design="DESIGN.md §5 C09"),
     "C13": dict(corpora=["conc2", "seqapi"], design="DESIGN.md §5 C13"),
     "C06": dict(corpora=["seqkey"], design="DESIGN.md §5 C06"),
     "C10": dict(corpora=["panic"], design="DESIGN.md §5 C10"),
     "C11": dict(corpora=["concpanic", "panic"], design="DESIGN.md §5 C11"),
     "C17": dict(corpora=["ops"], design="DESIGN.md §5 C17"),
+    "C12": dict(corpora=["fault"], design="DESIGN.md §5 C12"),
 }
